@@ -175,7 +175,10 @@ def explore_rule(mode):
 RULE_RULE = ("structured auditctl-style rules generated from one splitmix64 state per case: list in {exit,task,user,exclude} x action, 0..5 (sometimes 60..67) filters over every field class "
              "(numeric with decimal/hex/octal/binary/underscore/negative spellings and boundary values, uid/gid incl. unset and negative, exit codes by number and errno name, msgtype by name and number, strings, arch, perm, filetype, -C comparisons), "
              "all 8 operators, syscalls by number 0..2047 (and beyond) and by name on the arch in force, 'all', 0..3 keys, file watches on a scratch file / directory / missing path; one sixth deliberately inadmissible. "
-             "Each line goes through flags.Parse and rule.Build; accepted rules go on through ToCommandLine -> Parse -> Build -> ToCommandLine. non-trivial = accepted with at least one filter; distinct by case term")
+             "plus watch-shaped syscall rules (path/dir + perm [+ key]) with clean, unclean, relative and root paths, empty keys, explicit syscall sets 0..2015(+), "
+             "one '-F field=text' rule per value spelling (valid spellings and ~60 hostile ones) whose value word is read back from the built bytes, and the tokens of every other line through the model of Parse + Build. "
+             "Half of the rules are preceded by a near copy that is built and listed (history independence). "
+             "Each line goes through flags.Parse and rule.Build; accepted rules go on through ToCommandLine -> Parse -> Build -> ToCommandLine, and the model's own text must equal the implementation's and rebuild to the bytes. non-trivial = accepted with at least one filter; distinct by case term")
 
 
 def rule_spec(pid, judge, mode, case_type, rule_text):
@@ -246,7 +249,8 @@ def explore_c15(spec, res, a):
 
 COAL_RULE = ("record groups parsed from generated text: empty and EOE-only groups, single records of ~15 named and random types, SYSCALL groups with any subset and (one third) any order of CWD, PATH x n (all name types, seven mode classes and an unparsable mode), "
              "EXECVE (argc consistent, too large, non-numeric), SOCKADDR (IPv4, IPv6, unix, netlink, too short), PROCTITLE, AVC/other records, a special record in front, groups without SYSCALL; extra fields drawn from a pool that collides across records "
-             "(pid, uid, exe, cwd, addr, items, socket_addr, argc, a0, result, ses, subj_user, ...); records without data content. Each group is coalesced three times with snapshots of every input's Data/Tags/ToMapStr before and after, "
+             "(pid, uid, exe, cwd, addr, items, socket_addr, argc, a0, result, ses, subj_user, ...); records without data content; a SYSCALL record whose Data() fails next to records carrying an items key; "
+             "every record type that has a normalisation of its own in front of SYSCALL records of three different syscalls back to back (the model of applyNormalization must predict summary, ECS category/type and file object). Each group is coalesced three times with snapshots of every input's Data/Tags/ToMapStr before and after, "
              "ResolveIDs with hard-coded users on a returned event whose ECS slices are then mutated, and the last 8 events of the run are re-compared after every later call. non-trivial = an event was returned; distinct by case term")
 SPECS["C09"] = dict(targets=["Properties/C09.vo"], judge_targets=["Check/ChkNorm.vo"], imports="Require Import Bytes Parser ChkCoalesce ChkNorm.\nLocal Open Scope string_scope.", case_type="ecase", judge="judge_c09n",
                     shard=2500, explore=explore_c09, exhaustive=True,
